@@ -249,55 +249,43 @@ Section Resolve.
       else (false, (q, s1))
     end.
 
+  (* start_send *)
+  Definition rf_send (waker : bool) (f : fut) (s : rf_st) : option rf_st :=
+    let q := fst s ++ [f] in
+    if waker then
+      match q_poll q with
+      | (Some (Some out), q') => match send nx out (snd s) with
+                                 | Some s2 => Some (q', s2)
+                                 | None => None
+                                 end
+      | (_, q') => Some (q', snd s)
+      end
+    else Some (q, snd s).
+
+  (* state: the `finalizing` flag (/repo 5464049ec0b), queue, downstream.  poll_finalize drains
+     the queue only until the downstream's poll_finalize has been called once; afterwards
+     nothing is sent any more (futures still pending stay queued for a later tick) *)
   Definition resolve_push (waker : bool) : push fut :=
+    mkpush (St := (bool * rf_st)%type)
+           (fun s => let (r, s') := rf_empty waker (S (length (fst (snd s)))) (fst (snd s)) (snd (snd s)) in
+                     (r, (fst s, s')))
+           (fun f s => match rf_send waker f (snd s) with
+                       | Some s' => Some (fst s, s') | None => None end)
+           (fun s =>
+              if fst s then let (r, s2) := fin nx (snd (snd s)) in (r, (true, (fst (snd s), s2)))
+              else match rf_empty waker (S (length (fst (snd s)))) (fst (snd s)) (snd (snd s)) with
+                   | (true, (q, s1)) => let (r, s2) := fin nx s1 in (r, (true, (q, s2)))
+                   | (false, st) => (false, (false, st))
+                   end).
+
+  (* BEFORE 5464049ec0b (historical witness only): empty_ready on every poll_finalize *)
+  Definition resolve_old_push (waker : bool) : push fut :=
     mkpush (St := rf_st)
            (fun s => rf_empty waker (S (length (fst s))) (fst s) (snd s))
-           (fun f s =>
-              let q := fst s ++ [f] in
-              if waker then
-                match q_poll q with
-                | (Some (Some out), q') => match send nx out (snd s) with
-                                           | Some s2 => Some (q', s2)
-                                           | None => None
-                                           end
-                | (_, q') => Some (q', snd s)
-                end
-              else Some (q, snd s))
+           (rf_send waker)
            (fun s => match rf_empty waker (S (length (fst s))) (fst s) (snd s) with
                      | (true, (q, s1)) => let (r, s2) := fin nx s1 in (r, (q, s2))
                      | (false, st) => (false, st)
                      end).
 End Resolve.
 
-(* ------------------------------------------------------------------ proposed repairs
-   (fixes/C12_flat_map_no_ready_after_finalize.diff, fixes/C12_resolve_futures_no_send_after_finalize.diff);
-   the correspondence check selects these variants when the source it runs against contains them *)
-
-Section FlatMapFx.
-  Context {A B : Type} (nx : push B).
-  (* poll_finalize: if buffer.is_some() { ready!(self.poll_ready()) }; next.poll_finalize() *)
-  Definition fm_fin2 (st : fm_st nx) : bool * fm_st nx :=
-    match fst st with
-    | None => let (r2, s2) := fin nx (snd st) in (r2, (None, s2))
-    | Some _ => fm_fin st
-    end.
-  Definition flat_map_push2 (g : A -> list B) : push A := mkpush (@fm_ready B nx) (fm_send g) fm_fin2.
-End FlatMapFx.
-Definition flatten_push2 {B} (nx : push B) : push (list B) :=
-  mkpush (@fm_ready B nx) (fm_send (fun l : list B => l)) (@fm_fin2 B nx).
-
-Section ResolveFx.
-  Context {B : Type} (nx : push B).
-  (* state: finalizing flag, queue, downstream *)
-  Definition resolve_push2 (waker : bool) : push (@fut B) :=
-    mkpush (St := (bool * rf_st nx)%type)
-           (fun s => let (r, s') := ready (resolve_push nx waker) (snd s) in (r, (fst s, s')))
-           (fun f s => match send (resolve_push nx waker) f (snd s) with
-                       | Some s' => Some (fst s, s') | None => None end)
-           (fun s =>
-              if fst s then let (r, s2) := fin nx (snd (snd s)) in (r, (true, (fst (snd s), s2)))
-              else match rf_empty nx waker (S (length (fst (snd s)))) (fst (snd s)) (snd (snd s)) with
-                   | (true, (q, s1)) => let (r, s2) := fin nx s1 in (r, (true, (q, s2)))
-                   | (false, st) => (false, (false, st))
-                   end).
-End ResolveFx.
